@@ -216,10 +216,33 @@ def responder_check(prop, tier, seed, t0, check, scenarios, mc=(), level="model_
     return rc
 
 
-def automata_check(prop, tier, seed, t0, check, scenarios, mc=(), level="model_checking", assumptions=(), extra_cov=None):
+def lemma_step(work, invs, module="Lemmas.tla"):
+    """Apalache over unbounded integers; a tool failure is recorded, not fatal (the closed form is
+    also cross-checked by TLC on the range its integers allow)."""
+    done = []
+    for inv in invs:
+        od = work.path("apalache-" + inv)
+        rc, so, se = vlib.sh(["apalache-mc", "check", "--length=1", "--inv=" + inv, "--out-dir=" + od, module], timeout=300, cwd=work.dir)
+        ok = "The outcome is: NoError" in so
+        done.append({"lemma": inv, "discharged": ok, "tool": "apalache-mc 0.58 --length=1", "note": "" if ok else (so + se)[-300:]})
+        if "The outcome is: Error" in so:
+            raise Infra("lemma %s is FALSE according to Apalache" % inv)
+    return done
+
+
+def must_violate(work, module, cfg, what):
+    """vacuity guard: this configuration states that something is unreachable and must be refuted"""
+    r = vlib.tlc_run(work.dir, module, work.path(cfg), workers=4, timeout=300)
+    if what not in r["out"]:
+        raise Infra("vacuity guard %s/%s was not refuted: %s" % (module, cfg, r["out"][-500:]))
+    return {"module": module, "cfg": cfg + " (reachability, refuted as required)", "states": r["distinct"], "transitions": r["generated"]}
+
+
+def automata_check(prop, tier, seed, t0, check, scenarios, mc=(), level="model_checking", assumptions=(), extra_cov=None, pre_mcs=()):
     work = vlib.Work(prop)
     binp = vlib.build_automata("asan")
-    mcs = [mc_step(work, m, c, scope=1 if tier == "quick" else 2) for m, c in mc]
+    mcs = list(pre_mcs(work)) if pre_mcs else []
+    mcs += [mc_step(work, m, c, scope=1 if tier == "quick" else 2) for m, c in mc]
     tot, viol, known = run_campaign(prop, check, scenarios, seed, work, binp, module="AutomataTrace.tla")
     ass = ASSUME_COMMON + list(assumptions)
     if vlib.GLUE_FALLBACK_USED[0]:
@@ -278,7 +301,7 @@ def c07(prop, tier, seed, t0):
 
 
 def c08(prop, tier, seed, t0):
-    return responder_check(prop, tier, seed, t0, {"C08"}, campaigns.campaign_c08(seed, tier))
+    return responder_check(prop, tier, seed, t0, {"C08"}, campaigns.campaign_c08(seed, tier), mc=[("LargeTlvMC.tla", "LargeTlvMC.cfg"), MC_IMPL])
 
 
 def c09(prop, tier, seed, t0):
@@ -348,17 +371,25 @@ def c11(prop, tier, seed, t0):
 
 def c12(prop, tier, seed, t0):
     import acampaigns
-    return automata_check(prop, tier, seed, t0, {"C12"}, acampaigns.campaign_c12(seed, tier))
+    return automata_check(prop, tier, seed, t0, {"C12"}, acampaigns.campaign_c12(seed, tier), mc=[("TickPacing.tla", "TickPacing.cfg")],
+                          pre_mcs=lambda w: [must_violate(w, "TickPacing.tla", "TickPacingReach.cfg", "Invariant NeverSends is violated")])
 
 
 def c13(prop, tier, seed, t0):
     import acampaigns
-    return automata_check(prop, tier, seed, t0, {"C13"}, acampaigns.campaign_c13(seed, tier))
+    lem = []
+    return automata_check(prop, tier, seed, t0, {"C13"}, acampaigns.campaign_c13(seed, tier), mc=[("BandMC.tla", "BandMC.cfg")],
+                          pre_mcs=lambda w: (lem.extend(lemma_step(w, ["ClosedForm", "Monotone", "Range"])) or []),
+                          extra_cov={"lemmas": lem})
+
+
+def amc(tier):
+    return [("AutomataMC.tla", "AutomataMCq.cfg" if tier == "quick" else "AutomataMC.cfg")]
 
 
 def c14(prop, tier, seed, t0):
     import acampaigns
-    return automata_check(prop, tier, seed, t0, {"C14"}, acampaigns.campaign_c14(seed, tier))
+    return automata_check(prop, tier, seed, t0, {"C14"}, acampaigns.campaign_c14(seed, tier), mc=amc(tier))
 
 
 def c15(prop, tier, seed, t0):
@@ -368,7 +399,7 @@ def c15(prop, tier, seed, t0):
 
 def c16(prop, tier, seed, t0):
     import acampaigns
-    return automata_check(prop, tier, seed, t0, {"C16"}, acampaigns.campaign_c16(seed, tier))
+    return automata_check(prop, tier, seed, t0, {"C16"}, acampaigns.campaign_c16(seed, tier), mc=amc(tier))
 
 
 # --------------------------------------------------------------------------- C17
@@ -575,6 +606,14 @@ def _c17_pair(work, rbin, check, seed, idx):
     hs = [None,
           campaigns.Hist(random.Random(seed + 1), own=own[1], mtu=mtu, wild=0.1).frames(40),
           campaigns.Hist(random.Random(seed + 2), own=own[2], mtu=mtu, wild=0.1).frames(40)]
+    if idx % 6 == 0:
+        # one interface under heavy load (more observations than any per-interface limit), the other
+        # running an ordinary session: a responder-wide budget or shared table would show here
+        from framegen import probe, discover, query
+        heavy = [probe(bytes([2, 0x31, 0, 0, i >> 8, i & 255]), own[1], bytes([2, 0x32, 0, 0, i >> 8, i & 255]), own[1]) for i in range(1100)]
+        hs[1] = heavy
+        hs[2] = [discover(0, campaigns.M1, gen=3, seq=1)] + [probe(campaigns.X, own[2], bytes([2, 0x33, 0, 0, 0, i]), own[2]) for i in range(5)] \
+            + [query(campaigns.M1, own[2], seq=2), query(campaigns.M1, own[2], seq=3)]
 
     def script(which):
         from framegen import Script
@@ -585,7 +624,8 @@ def _c17_pair(work, rbin, check, seed, idx):
                 s.boot(i, own[i], mtu=mtu, wifi=i - 1, fill=0xA5, **campaigns.attrs_default(wifi=i - 1))
         if len(which) == 2:
             order = [1] * len(hs[1]) + [2] * len(hs[2])
-            random.Random(seed + 3).shuffle(order)
+            if idx % 6 != 0:
+                random.Random(seed + 3).shuffle(order)
             pos = {1: 0, 2: 0}
             for i in order:
                 s.rx(i, hs[i][pos[i]])
